@@ -29,6 +29,8 @@ class Transfer:
         self.transfer_id: UUID = transfer_id
         self.chunks: Dict[int, bytes] = {}
         self.expected_size: Optional[int] = None
+        # Known once the packet flagged as the last one arrives
+        self.expected_chunks: Optional[int] = None
         self.size_known = asyncio.Future()
         self.error_code: Union[int] = 0
         self._future: asyncio.Future[Transfer] = asyncio.Future()
@@ -143,8 +145,12 @@ class TransferManager:
         packet_id: int = transfer_block["Packet"]
         packet_data = transfer_block["Data"]
         transfer.chunks[packet_id] = packet_data
-        if transfer_block["Status"] == TransferStatus.DONE and not transfer.done():
-            transfer.mark_done()
+        if transfer_block["Status"] == TransferStatus.DONE:
+            transfer.expected_chunks = packet_id + 1
+        # The last packet may overtake earlier ones, only done once we have everything up to it.
+        if transfer.expected_chunks is not None and not transfer.done():
+            if all(x in transfer.chunks for x in range(transfer.expected_chunks)):
+                transfer.mark_done()
 
     def _handle_transfer_info(self, msg: Message, transfer: Transfer):
         transfer_block = msg["TransferInfo"][0]
